@@ -33,6 +33,13 @@ def gen_lines(rng, ex, cid, st, count):
     out += pre
     one = "1," + ",".join(["0"] * 11)
     zero = ",".join(["0"] * 12)
+
+    def t1(P, v):
+        # operands also in projective form (the direct output of g1_add / g1_dbl), except for the precomputation-based variant
+        return pg.p1tok(P) if P is None or v == "fix" else c03.ptok(rng, cv1, P, "P")
+
+    def t2(Q, v):
+        return pg.p2tok(Q) if Q is None or v == "fix" else c11.ptok(rng, cv2, Q, "P")
     for _ in range(count):
         k = rng.below(100)
         if k < 10:
@@ -64,19 +71,26 @@ def gen_lines(rng, ex, cid, st, count):
             kk = c03.scalar(rng, st.n)
             if v.startswith("dig"):
                 kk = abs(kk) & ((1 << 64) - 1)
-            out.append("g1m %s %s %s" % (v, pg.p1tok(rng.choice(pool1 + [None])), hx(kk)))
+            out.append("g1m %s %s %s" % (v, t1(rng.choice(pool1 + [None]), v), hx(kk)))
         elif k < 66:
             v = rng.choice(GM)
             kk = c03.scalar(rng, st.n)
             if v.startswith("dig"):
                 kk = abs(kk) & ((1 << 64) - 1)
-            out.append("g2m %s %s %s" % (v, pg.p2tok(rng.choice(pool2 + [None])), hx(kk)))
-        elif k < 72:
-            out.append("g1s %s %s %s %s %s" % (rng.choice(["sim", "gen"]), pg.p1tok(rng.choice(pool1)), hx(c03.scalar(rng, st.n)),
-                                               pg.p1tok(rng.choice(pool1)), hx(c03.scalar(rng, st.n))))
+            out.append("g2m %s %s %s" % (v, t2(rng.choice(pool2 + [None]), v), hx(kk)))
         elif k < 78:
-            out.append("g2s %s %s %s %s %s" % (rng.choice(["sim", "gen"]), pg.p2tok(rng.choice(pool2)), hx(c03.scalar(rng, st.n)),
-                                               pg.p2tok(rng.choice(pool2)), hx(c03.scalar(rng, st.n))))
+            # simultaneous multiplication: also with a vanishing term (scalar 0, r, 2r, identity) on either side and distinct points
+            g = "g1s" if k < 72 else "g2s"
+            tk = t1 if k < 72 else t2
+            pool = pool1 if k < 72 else pool2
+            P, Q = rng.choice(pool), rng.choice(pool)
+            a, b = c03.scalar(rng, st.n), c03.scalar(rng, st.n)
+            j = rng.below(8)
+            if j == 0: b = rng.choice([0, st.n, 2 * st.n, -st.n])
+            elif j == 1: a = rng.choice([0, st.n, 2 * st.n, -st.n])
+            elif j == 2: Q = None
+            elif j == 3: P = None
+            out.append("%s %s %s %s %s %s" % (g, rng.choice(["sim", "gen"]), tk(P, "sim"), hx(a), tk(Q, "sim"), hx(b)))
         else:
             v = rng.choice(GTE)
             a = rng.choice(valid + [st.gt, one])
